@@ -32,6 +32,13 @@ def plan(tier, seed):
         cfgs.append(dict(sched="WFQ", table=tab, rate=8, flows=[0, 1], sizes=[1, 2], N=n + 1, gaps="G3", order=1))
         cfgs.append(dict(sched="WFQ", table=tab, rate=8, flows=[0, 1], sizes=[1, 2, 3], N=n + 2, gaps=["S"], order=0, static=True))
     cfgs.append(dict(sched="WFQ", table=[[0, 1], [1, 2]], rate=8, flows=[0, 1], sizes=[1, 2], N=n, gaps="G5", order=0, map="swap"))
+    # class ids computed on every call; a time axis scaled by 2^-30; deeper static backlogs (heap shape matters from 6 items on)
+    cfgs.append(dict(sched="WFQ", table=[[1000, 1], [1001, 2]], rate=8, flows=[0, 1], sizes=[1, 2], N=n, gaps="G3", order=0, map="big"))
+    cfgs.append(dict(sched="VC", table=[[1000, 1], [1001, 2]], rate=8, flows=[0, 1], sizes=[1, 2], N=n, gaps="G3", order=0, map="big"))
+    cfgs.append(dict(sched="WFQ", table=[[0, 1], [1, 2]], rate=8 * 2 ** 30, flows=[0, 1], sizes=[1, 2], N=n, gaps="G5", order=0, scale=2.0 ** -30, L=50))
+    cfgs.append(dict(sched="VC", table=[[0, 2.0 ** -30], [1, 2.0 ** -29]], rate=8 * 2 ** 30, flows=[0, 1], sizes=[1, 2], N=n, gaps="G5", order=0, scale=2.0 ** -30, L=50))
+    for kind, tab in (("WFQ", [[0, 3], [1, 2]]), ("VC", [[0, 2], [1, 3]])):
+        cfgs.append(dict(sched=kind, table=tab, rate=8, flows=[0, 1], sizes=[1, 2], N=6 if quick else 7, gaps=["S"], order=0, static=True))
     cfgs.append(dict(sched="WFQ", table=[[0, 2]], rate=8, flows=[0, 1], sizes=[1, 2], N=n, gaps="G5", order=0, map="one"))
     cfgs.append(dict(sched="WFQ", table=[[0, 1], [1, 2], [2, 1]], rate=8, flows=[0, 1, 2], sizes=[1, 2], N=n, gaps="G3", order=0))
     cfgs.append(dict(sched="VC", table=[[0, 0], [1, 1]], rate=8, flows=[0, 1], sizes=[1], N=6 if quick else 7, gaps=["S", 1], order=0))
